@@ -54,19 +54,13 @@ func newPrefixedReadSeekCloser(prefix []byte, f io.ReadSeekCloser) *prefixedRead
 }
 
 func (p *prefixedReadSeekCloser) Read(b []byte) (int, error) {
-	var (
-		prefBytes = min(len(b), p.prefix.Len())
-		n         int
-	)
-
-	if prefBytes > 0 {
-		k, _ := p.prefix.Read(b[:prefBytes]) // io.EOF can't happen because of prefBytes and bytes.Reader can't have other errors.
-		n = k
+	if p.prefix.Len() > 0 {
+		// Do not touch the rest until the prefix is drained: an exhausted rest
+		// may report io.EOF even for an empty slice.
+		return p.prefix.Read(b)
 	}
 
-	k, err := p.rest.Read(b[prefBytes:])
-	n += k
-	return n, err
+	return p.rest.Read(b)
 }
 
 // Seek supports SeekCurrent and positive offsets only, allowing to skip some data.
